@@ -55,6 +55,9 @@ func C12(r *Run) *core.Report {
 	c12W3(r, rep)
 	// W5 (32-bit layout only): both twins keep their 64-bit atomic words aligned - a layout change in one twin that
 	// faults on 32-bit platforms makes the twins differ there (restated from C14.A7)
+	// W6: helpers that only one twin uses must not lose bits on 32-bit targets (restated from the word-width rule P12)
+	n6 := borrow(rep, mapProtocol(r, "C04", 1), "C12.W6", "C04.P12")
+	_ = n6
 	if r.P.GOARCH == "386" {
 		n5 := borrow(rep, C14(r), "C12.W5", "C14.A7")
 		rep.MinCount("C12.W5", "premise obligations (64-bit atomic operands aligned on 386)", n5, 2)
